@@ -8,7 +8,7 @@ import time
 import traceback
 
 from . import build, common, translate
-from .common import Ctx, VERIF, COQ, jsonable
+from .common import Ctx, VERIF, COQ, OUT, jsonable
 
 TRUSTED_BASE = [
     'Coq 8.16.1 kernel and vm_compute (no native_compute)',
@@ -45,8 +45,8 @@ def main(argv):
 
 def run_check(ctx, mod):
     pid = ctx.pid
-    os.makedirs(os.path.join(VERIF, 'evidence'), exist_ok=True)
-    os.makedirs(os.path.join(VERIF, 'replays'), exist_ok=True)
+    os.makedirs(os.path.join(OUT, 'evidence'), exist_ok=True)
+    os.makedirs(os.path.join(OUT, 'replays'), exist_ok=True)
     # 1. regenerate coq/Gen from the current sources (fail-closed)
     gen_errors = translate.regenerate()
     for e in gen_errors:
@@ -144,7 +144,7 @@ def _tail(s, n=1200):
 
 
 def write_replay(ctx, k, v, broken=None, no_input=False):
-    path = os.path.join(VERIF, 'replays', '%s-%d-%d.json' % (ctx.pid, ctx.seed, k))
+    path = os.path.join(OUT, 'replays', '%s-%d-%d.json' % (ctx.pid, ctx.seed, k))
     rec = dict(property=ctx.pid, seed=ctx.seed, tier=ctx.tier, no_failing_input_found=bool(no_input))
     rec.update(jsonable(v))
     if broken:
@@ -172,7 +172,7 @@ def write_evidence(ctx, violations=0, harness_error=None):
         cov['harness_error'] = harness_error
     ev = dict(property_id=ctx.pid, tier=ctx.tier, seed=ctx.seed, level='proof', coverage=cov,
               assumptions=getattr(ctx, 'assumptions', []), wall_s=round(ctx.elapsed(), 2), violations=violations)
-    path = os.path.join(VERIF, 'evidence', ctx.pid + '.json')
+    path = os.path.join(OUT, 'evidence', ctx.pid + '.json')
     tmp = path + '.tmp'
     json.dump(ev, open(tmp, 'w'), indent=1)
     os.replace(tmp, path)
